@@ -34,6 +34,8 @@ pub mod c03;
 pub mod c05;
 pub mod c06;
 pub mod c07;
+pub mod c10;
+pub mod c11;
 pub mod c12;
 pub mod c15;
 pub mod c17;
@@ -47,6 +49,8 @@ pub fn get(id: &str) -> Option<PropDef> {
         "C05" => Some(c05::def()),
         "C06" => Some(c06::def()),
         "C07" => Some(c07::def()),
+        "C10" => Some(c10::def()),
+        "C11" => Some(c11::def()),
         "C12" => Some(c12::def()),
         "C15" => Some(c15::def()),
         "C17" => Some(c17::def()),
